@@ -395,6 +395,48 @@ def check(col, prog, tier, profile, fixture=None):
                 col.violation("Q1", "%s|none-origin" % fk(egcd), egcd.loc(), "egcd returns None on a path that is neither the failed divisibility test nor propagation of the recursive None")
     if nsome < 2:
         col.violation("Q1", "%s|paths" % fk(egcd), egcd.loc(), "expected a base and a recursive Some-returning path in egcd")
+    # ... and it gets there: every division / remainder of the solver has a divisor the path has shown non-zero, except the
+    # base test `c % b` under a == 0 (a = b = 0 is outside the contract).  `egcd(a, 0, c)`, a != 0, is inside it.
+    col.rule("Q6", "egcd divides only by a value the path has compared unequal to zero, or by b in the base case a == 0", floor=3)
+    seen_div = set()
+    for st in I.all_end_states():
+        for e in st.event_list():
+            if e.kind != "call" or str(e.extra.get("trait") or "").split("::")[-1] not in ("Rem", "Div", "RemAssign", "DivAssign") or len(e.args or ()) < 2 or e.bb in seen_div:
+                continue
+            T = Translator()
+            av_ = (e.extra.get("argvals") or [None, None])
+            dv_ = av_[1] if len(av_) > 1 and av_[1] is not None else e.args[1]   # (a divisor passed by reference: the value behind it)
+            try:
+                d = T.value_of(dv_)
+            except Exception:  # noqa: BLE001
+                d = None
+            facts = e.state[0] if getattr(e, "state", None) else st.facts
+            nz, zs = [], []
+            for f in facts:
+                t = f[1]
+                if not (isinstance(t, tuple) and t and t[0] == "call" and str(t[1]).endswith(("PartialEq::eq", "PartialEq::ne")) and f[0] in ("eq", "ne")):
+                    continue
+                args_ = [x for x in t[2] if not (isinstance(x, tuple) and x and x[0] == "mem")]
+                if len(args_) != 2:
+                    continue
+                truth = (f[0] == "eq") == bool(f[2])
+                equal = truth if str(t[1]).endswith("::eq") else not truth
+                try:
+                    p = T.value_of(args_[0]) - T.value_of(args_[1])
+                except Exception:  # noqa: BLE001
+                    continue
+                (zs if equal else nz).append(p)
+            key = "%s|divisor|%s" % (fk(egcd), tstr(dv_)[:60])
+            if d is None:
+                col.violation("Q6", key, egcd.loc(e.bb), "cannot read the divisor of %s" % tstr(e.res)[:80])
+                continue
+            shown = any((d - p).is_zero() or (d + p).is_zero() for p in nz)
+            base = (d - T.value_of(b)).is_zero() and any((p - T.value_of(a)).is_zero() or (p + T.value_of(a)).is_zero() for p in zs)
+            if shown or base:
+                seen_div.add(e.bb)
+                col.ok("Q6", egcd.loc(e.bb), key, "divisor compared unequal to zero on this path" if shown else "base case: a == 0, divisor b")
+            else:
+                col.violation("Q6", key, egcd.loc(e.bb), "egcd divides by %s on a path that has not shown it non-zero (and is not the base case a == 0): a zero coefficient inside the contract panics instead of being solved" % tstr(dv_)[:80])
 
     # ---------------- Q2
     rule_gcd(col, gcd, Af)
